@@ -1,3 +1,4 @@
+import SamlModel.Props.CheckerGen
 import SamlModel.Exec.C20
 import SamlModel.Model.FactsUtil
 set_option linter.unusedSimpArgs false
@@ -277,12 +278,10 @@ theorem C20_cond_condLogic (c e : Bool) : fails (.condLogic c e) = true ↔ c = 
 theorem C20_cond_logic (e : Bool) : fails (.logic e) = true ↔ e = true := by simp [fails]
 theorem C20_cond_valueStep : fails .valueStep = false := rfl
 
-/-- tie: checker.go is the source `Model.Checker` was translated from (normalised-source fingerprints,
-    regenerated by go2lean on every run) -/
-theorem C20_source_current : FactsUtil.sameHashes ["checker.Checker.CheckFailed", "checker.Checker.addStep",
-    "checker.Checker.WithValueNotEmptyCheck", "checker.Checker.WithValuesNotEmptyCheck", "checker.Checker.WithValueLengthCheck",
-    "checker.Checker.WithValueEqualsCheck", "checker.Checker.WithConditionalValueNotEmpty", "checker.Checker.WithConditionalLogicStep",
-    "checker.Checker.WithLogicStep", "checker.Checker.WithValueStep"] = true := by decide
+/-- tie: checker.go is translated on every run (`Generated/Checker.lean`) and `Props.CheckerGen` proves every generated
+    function equal to the function of `Model.Checker` these theorems are stated over (`checkFailed_eq`, `withXxx_eq`); the
+    source fingerprints this theorem used to list are retired -/
+theorem C20_source_current : Gen.Chk.translated = true := rfl
 
 /-- non-vacuity: a three-step chain whose second step fails -/
 example : checkFailed (build [.notEmpty "x", .condLogic true true, .logic true]) [] =
